@@ -6,6 +6,8 @@ CONSTANTS
   MaxLits = 0
   Ordered = FALSE
   AllowMissing = FALSE
+  DiagChoices = {0}
+  Rounds = 1
 INVARIANTS Acyclic CycleRejected DagBuilds ParsedOnce TopoOK EmitTerminal
 VIEW View
 CHECK_DEADLOCK FALSE
